@@ -177,6 +177,11 @@ def r3(ctx, facts):
     # k1 uses 31, k2 uses 33: first rotation follows a multiply by C1
     fb = facts.one(r"^%s::fmix$" % H)
     fv = int_consts(fb)
+    # a step written once as a local closure and applied n times counts n times
+    for bb, c in fb.calls():
+        tgt = c.callee.get("res") or ""
+        if bb in fb.live_blocks and tgt.startswith(fb.path + "::{closure") and facts.body(tgt) is not None:
+            fv = fv + int_consts(facts.body(tgt))
     r.instance("fmix-multiplier-1", REF["fmix1"] in fv, "fmix: k *= 0xff51afd7ed558ccd", fb.span)
     r.instance("fmix-multiplier-2", REF["fmix2"] in fv, "fmix: k *= 0xc4ceb9fe1a85ec53", fb.span)
     r.instance("fmix-shifts", fv.count(33) >= 3, "fmix: three `>> 33` steps (found %d)" % fv.count(33), fb.span)
